@@ -94,7 +94,7 @@ type c05Past struct {
 
 func engineCacheHist(ctx *Ctx) {
 	r := vlib.NewRand(ctx.Seed, ctx.Shard, "cachehist")
-	nHist := ctx.N(960, 9600)
+	nHist := ctx.N(960, 38000)
 	for h := 0; h < nHist; h++ {
 		sp := vlib.DBSpec{N: []int{8, 20, 45, 90}[h%4], TieHeavy: h%3 == 0, Platforms: 2, Pipelines: true, PseudoCmd: h%2 == 0}
 		mk := func() []vlib.Cmd { return vlib.MustLoad(vlib.GenCommands(r, sp)).Commands }
